@@ -214,7 +214,8 @@ def ffsFiles (data : Bytes) (length : Nat) : Except Err Unit :=
   let d := data.drop dataOffset
   if d.length < fileHeaderMin then .error .parse else
   if slice d 20 3 = [0xFF, 0xFF, 0xFF] then
-    if d.length < 32 then .error .parse
+    -- repaired reader (fixes/C02-erased-tail-24): an erased 24-byte header at the very end is free space
+    if d.length < 32 then (if (d.take 24).all (· == 0xFF) then .ok () else .error .parse)
     else if slice d 24 8 = List.replicate 8 0xFF then .ok ()
     else .error .unmodelled
   else .error .unmodelled
